@@ -264,6 +264,41 @@ fn diff_pair(a: &Ymd, b: &Ymd, units: &[(&str, Option<Unit>, DUnit)], selfcheck_
     nontrivial
 }
 
+/// a.since(b) with a rounding mode = -(a.until(b)) with the mirrored mode (ceil <-> floor, halfCeil <->
+/// halfFloor, the others unchanged), for every mode and a few (smallest unit, increment) cells: a differential
+/// law between the two operations, no expected value needed.
+fn mirrored_since_law(a: &Ymd, b: &Ymd, out: &mut Out) {
+    use temporal_rs::options::RoundingMode as M;
+    let (Oc::Ok(da), Oc::Ok(db)) = (call(|| pd(a.y, a.m, a.d)), call(|| pd(b.y, b.m, b.d))) else { return };
+    const MODES: [(M, M, &str); 9] = [
+        (M::Ceil, M::Floor, "ceil"),
+        (M::Floor, M::Ceil, "floor"),
+        (M::Expand, M::Expand, "expand"),
+        (M::Trunc, M::Trunc, "trunc"),
+        (M::HalfCeil, M::HalfFloor, "halfCeil"),
+        (M::HalfFloor, M::HalfCeil, "halfFloor"),
+        (M::HalfExpand, M::HalfExpand, "halfExpand"),
+        (M::HalfTrunc, M::HalfTrunc, "halfTrunc"),
+        (M::HalfEven, M::HalfEven, "halfEven"),
+    ];
+    for (largest, smallest, inc, cell) in [(Unit::Day, Unit::Day, 2u32, "day/2"), (Unit::Week, Unit::Week, 1, "week/1"), (Unit::Month, Unit::Month, 1, "month/1"), (Unit::Year, Unit::Month, 2, "year..month/2"), (Unit::Year, Unit::Year, 1, "year/1")] {
+        for (mode, mirrored, mname) in MODES {
+            let s = call(|| da.since(&db, diff(Some(largest), Some(smallest), Some(mode), Some(inc))));
+            let u = call(|| da.until(&db, diff(Some(largest), Some(smallest), Some(mirrored), Some(inc))));
+            let attrs = || vec![("a", ymd_text(a)), ("b", ymd_text(b)), ("cell", cell.to_string()), ("mode", mname.to_string()), ("direction", if a < b { "forward" } else if a > b { "backward" } else { "equal" }.to_string())];
+            let agree = match (&s, &u) {
+                (Oc::Ok(s), Oc::Ok(u)) => {
+                    let neg: Vec<f64> = dur_fields(u).iter().map(|x| if *x == 0.0 { 0.0 } else { -*x }).collect();
+                    dur_fields(s).to_vec() == neg
+                }
+                (Oc::Err(k1, _), Oc::Err(k2, _)) => k1 == k2,
+                _ => false,
+            };
+            out.law("since(mode) = -until(mirrored mode)", agree, attrs);
+        }
+    }
+}
+
 struct DiffSpace {
     dates: Vec<Ymd>,
 }
@@ -281,6 +316,9 @@ impl Space for DiffSpace {
     fn eval(&self, i: u64, out: &mut Out) {
         let n = self.dates.len() as u64;
         let (a, b) = (&self.dates[(i / n) as usize], &self.dates[(i % n) as usize]);
+        if i % 3 == 0 {
+            mirrored_since_law(a, b, out);
+        }
         if diff_pair(a, b, &LARGEST, false, out) {
             out.nontrivial += 1;
             if out.want_sample() {
